@@ -252,3 +252,24 @@ PROPS["C14"] = dict(
     trusted=COMMON_TRUST + ["dyadic data: every comparison and theta*extreme product is exact in double precision"],
     assumptions=["|entries| < RAND_MAX (sentinel)"],
 )
+
+
+def rs_configs(prop, quick_np, thorough_np):
+    def configs(tier, seed):
+        cfgs = [{"tag": f"h_rs-{prop}-seq", "harness": "h_rs", "np": 1, "args": [prop, "seq"], "asan": True}]
+        for n in nps(tier, quick_np, thorough_np):
+            cfgs.append({"tag": f"h_rs-{prop}-par-np{n}", "harness": "h_rs", "np": n, "args": [prop, "par"], "env": {"PPN": 2 if n % 2 == 0 else n}})
+        return cfgs
+    return configs
+
+
+PROPS["C13"] = dict(
+    module="RaptorModel.Props.C13",
+    harnesses=["h_rs"],
+    configs=rs_configs("C13", [1, 2, 3, 4, 6], [1, 2, 3, 4, 5, 6, 8, 12, 16]),
+    rule=("strength graphs of random M-matrix-like systems (symmetric and non-symmetric patterns, decoupled vertices, thresholds 0..1/2), up to ~30 "
+          "vertices (thorough: more), distinct caller-supplied weights (random permutation); RS, CLJP, Falgout, PMIS, HMIS; layouts incl. "
+          "empty ranks and ranks without boundary; standard and node-aware. Non-trivial = the graph has an edge."),
+    trusted=COMMON_TRUST + ["weights are distinct dyadic-free doubles (k+1)/(n+2); comparisons exact"],
+    assumptions=["RS first/second pass: specification predicates only (no executable model of the bucket structure at this commit)"],
+)
